@@ -365,18 +365,29 @@ func (k *KnownFindings) Avoid() map[string]string {
 		if f.Status != "open" {
 			continue
 		}
+		inScope := true
 		if len(f.Scope) > 0 && k.Prop != "" {
-			in := false
+			inScope = false
 			for _, p := range f.Scope {
 				if p == k.Prop {
-					in = true
+					inScope = true
 				}
-			}
-			if !in {
-				continue
 			}
 		}
 		for _, a := range f.Avoid {
+			// "switch@C05,C06" limits one switch to the named properties' checks (overrides Scope)
+			if i := strings.IndexByte(a, '@'); i >= 0 {
+				in := k.Prop == ""
+				for _, p := range strings.Split(a[i+1:], ",") {
+					in = in || p == k.Prop
+				}
+				if !in {
+					continue
+				}
+				a = a[:i]
+			} else if !inScope {
+				continue
+			}
 			if _, ok := out[a]; !ok {
 				out[a] = f.ID
 			}
